@@ -82,11 +82,15 @@ FUNCTIONS.update({
     requires=['MuxInv(self)'],
     ensures=['MuxInv(self)', 'tag not in self._tag_map',
              'forall(t, "int", implies(t != tag, (t in self._tag_map) == old(t in self._tag_map)))',
-             # the reply goes to the stack registered under that tag, and to no other
-             'implies(old(tag in self._tag_map), old(self._tag_map[tag][0]).g_posted == old(old(self._tag_map[tag][0]).g_posted) + 1)',
-             'forall_ref(k, ClientMessageSinkStack, implies(not (old(tag in self._tag_map) and k == old(self._tag_map[tag][0])), k.g_posted == old(k.g_posted)), k.g_posted)'],
-    modifies=_MUX_MOD + ['SinkStack.g_posted', 'deque[tuple[any,any]]', 'Props.tag', 'Props.has_tag'],
+             ],
+    modifies=_MUX_MOD + ['deque[tuple[AnySink,any]]', 'AnySink.g_invoked', 'Props.tag', 'Props.has_tag'],
     allocates=True,
+    ghost=[
+      # the reply goes to the stack registered under that tag -- and a frame for a tag nobody
+      # waits for is delivered to nobody
+      {'before': 'reply_stack.AsyncProcessResponseStream(stream)', 'do': [
+        'prove(old(tag in self._tag_map) and reply_stack == old(self._tag_map[tag][0]), "routed-to-the-registered-stack")']},
+    ],
     props=['C11', 'C02'],
   ),
 })
